@@ -93,3 +93,17 @@ Theorem C09_range_handover : forall (a0 a1 a2 b0 b1 : R) (ifu : bool) (x y : R) 
   /\ field o "_num_distribution_draws" = Some (VInt 20).
 Proof. exact range_handover. Qed.
 Print Assumptions C09_range_handover.
+
+(* re-drawing the lens parameters (inner slope / mass-to-light outside the range) re-enters draw_lens with exactly the caller's sixteen
+   arguments by name: all means, scatters and slopes keep their declared values on every re-draw *)
+Theorem C09_redraw_keeps_all_arguments : forall lo hi x ifu lam slam gp lifu sifu al be gi sgi agi lm slm alm gmean gsig glist rg cu,
+  (lo <= lm <= hi -> (hi < lm + alm * x + slm * rg (S cu) \/ lm + alm * x + slm * rg (S cu) < lo) ->
+   yields Gr FUEL (CFun src_LensDistribution_draw_lens) (Some (ld_obj lo hi x ifu false true)) []
+     (all_kws lam slam gp lifu sifu al be gi sgi agi lm slm alm gmean gsig glist) rg cu (VStr "<re-drawn>") (S (S cu))
+     (forwarded lam slam gp lifu sifu al be gi sgi agi lm slm alm gmean gsig glist))
+  /\ (lo <= gi <= hi -> (hi < gi + agi * x + sgi * rg (S cu) \/ gi + agi * x + sgi * rg (S cu) < lo) ->
+   yields Gr FUEL (CFun src_LensDistribution_draw_lens) (Some (ld_obj lo hi x ifu true false)) []
+     (all_kws lam slam gp lifu sifu al be gi sgi agi lm slm alm gmean gsig glist) rg cu (VStr "<re-drawn>") (S (S cu))
+     (forwarded lam slam gp lifu sifu al be gi sgi agi lm slm alm gmean gsig glist)).
+Proof. intros. split; intros; [apply redraw_m2l_forwards_everything | apply redraw_gamma_in_forwards_everything]; assumption. Qed.
+Print Assumptions C09_redraw_keeps_all_arguments.
